@@ -11,6 +11,8 @@ CONSTANTS
   Grow = 0
   Shadowing = TRUE
   ForceAfter = 0
+  Slim = FALSE
+  Balance = FALSE
 CONSTRAINT SizeBound
 INVARIANTS Balanced UsesBound EmitInv
 CHECK_DEADLOCK FALSE
